@@ -9,7 +9,7 @@ Line protocol of the C15 model driver.  One case per line:
   "ops": [op, …]}`
 
 ops (trailing extra elements — e.g. the read path used on the implementation — are ignored):
-`["set_coeffs", null | ["seq", [rat…], …] | ["scalar", rat, …]]`, `["set_origin", null | ["num", rat, …] | ["bad", …]]`,
+`["set_coeffs", null | ["seq", [rat…], …] | ["scalar", rat, …] | ["notflat", len, …] | ["badelems", "text"|"complex", …]]`, `["set_origin", null | ["num", rat, …] | ["bad", …]]`,
 `["read", ix]`, `["view", win, ix]`, `["coeffs"]`, `["origin"]`, `["raw"]`, `["write", [rat…]]`, `["reopen"]`
 with `ix = null | [item…]`, `item = int | [start|null, stop|null, step|null]`, `win = null | [[start, stop], …]`.
 
@@ -77,6 +77,8 @@ def parseOp? (j : Json) : Option Op :=
       match a.toList with
       | Json.str "seq" :: l :: _ => (parseRats? l).map (fun cs => .setCoeffs (.seq cs))
       | Json.str "scalar" :: x :: _ => (parseRat? x).map (fun x => .setCoeffs (.scalar x))
+      | Json.str "notflat" :: n :: _ => (jInt? n).map (fun n => .setCoeffs (.notFlat n.toNat))
+      | Json.str "badelems" :: k :: _ => some (.setCoeffs (.badElems (jStr k == "complex")))
       | _ => none
     | _ => none
   | Json.str "set_origin" :: arg :: _ =>
